@@ -1355,3 +1355,83 @@ pub mod nestedcomp {
         pub fn good_via(&self) -> u32 { self.good_body().depth }
     }
 }
+
+/// C08 R9 controls: a countdown shared by the handlers a loop attaches
+pub mod countdown {
+    use std::cell::Cell;
+    use std::rc::Rc;
+    pub struct Shared { pub remaining: Cell<usize>, pub done: Cell<bool> }
+    pub struct Handler { pub state: Rc<Shared>, pub index: usize }
+    /// BAD: sized by all inputs, handlers only for the pending ones
+    pub fn bad_all(inputs: &[Option<u32>]) -> Vec<Handler> {
+        let mut pending: Vec<usize> = Vec::new();
+        for (i, v) in inputs.iter().enumerate() {
+            if v.is_none() { pending.push(i); }
+        }
+        let shared = Rc::new(Shared { remaining: Cell::new(inputs.len()), done: Cell::new(false) });
+        let mut hs = Vec::new();
+        for &i in &pending {
+            hs.push(Handler { state: shared.clone(), index: i });
+        }
+        hs
+    }
+    /// GOOD: sized by the collection the attach loop iterates
+    pub fn good_len(inputs: &[Option<u32>]) -> Vec<Handler> {
+        let mut pending: Vec<usize> = Vec::new();
+        for (i, v) in inputs.iter().enumerate() {
+            if v.is_none() { pending.push(i); }
+        }
+        let shared = Rc::new(Shared { remaining: Cell::new(pending.len()), done: Cell::new(false) });
+        let mut hs = Vec::new();
+        for &i in &pending {
+            hs.push(Handler { state: shared.clone(), index: i });
+        }
+        hs
+    }
+    /// GOOD: a counter kept next to the pushes
+    pub fn good_counter(inputs: &[Option<u32>]) -> Vec<Handler> {
+        let mut pending: Vec<usize> = Vec::new();
+        let mut n = 0;
+        for (i, v) in inputs.iter().enumerate() {
+            if v.is_none() { n += 1; pending.push(i); }
+        }
+        let shared = Rc::new(Shared { remaining: Cell::new(n), done: Cell::new(false) });
+        let mut hs = Vec::new();
+        for &i in &pending {
+            hs.push(Handler { state: shared.clone(), index: i });
+        }
+        hs
+    }
+}
+
+/// C02 G7 controls: values handed to the host
+pub mod c02host {
+    use super::gc::Guard;
+    use super::value::{JsObject, JsValue};
+    pub struct RuntimeValue { pub value: JsValue, pub guard: Option<Guard<JsObject>> }
+    impl RuntimeValue {
+        pub fn unguarded(value: JsValue) -> Self { RuntimeValue { value, guard: None } }
+        pub fn with_guard(value: JsValue, guard: Guard<JsObject>) -> Self { RuntimeValue { value, guard: Some(guard) } }
+    }
+    /// BAD: whatever the payload is
+    pub fn bad_payload(payload: JsValue) -> RuntimeValue { RuntimeValue::unguarded(payload) }
+    /// GOOD: objects get a guard of their own
+    pub fn good_payload(payload: JsValue, mk: fn() -> Guard<JsObject>) -> RuntimeValue {
+        if let JsValue::Object(ref o) = payload {
+            let g = mk();
+            g.guard(o.clone());
+            RuntimeValue::with_guard(payload, g)
+        } else {
+            RuntimeValue::unguarded(payload)
+        }
+    }
+}
+
+/// C17 R8 controls: state an API keeps between calls
+pub mod c17state {
+    use super::c02host::RuntimeValue;
+    use super::value::JsValue;
+    pub struct BadBuilder { pub exports: Vec<(String, JsValue)> }
+    pub struct GoodBuilder { pub exports: Vec<(String, RuntimeValue)> }
+    pub struct GoodHandles { pub exports: Vec<(String, *mut RuntimeValue)> }
+}
